@@ -1,25 +1,24 @@
 (* Proofs/RegistryHistory.v -- the invariant along histories. *)
 From Coq Require Import ZArith NArith List Bool Lia.
-From PydoctorVerif Require Import Base.Sexp Model.Registry Spec.RegistryInv Proofs.RegistryBase Proofs.RegistryProofs.
+From PydoctorVerif Require Import Base.Sexp Model.Registry Spec.RegistryInv Proofs.RegistryBase Proofs.RegistryProofs
+     Proofs.RegistryReparent.
 Import ListNotations.
 Local Open Scope N_scope.
 
-Definition no_reparent (o : op) : Prop := match o with Reparent _ _ _ => False | _ => True end.
-
-Lemma step_inv_noreparent : forall s o s', Inv s -> guard s o -> no_reparent o -> step s o = Some s' -> Inv s'.
+Lemma step_inv : forall s o s', Inv s -> guard s o -> step s o = Some s' -> Inv s'.
 Proof.
-  intros s o s' HI Hg Hn H. destruct o as [pkg n parent|c n q k|o np nn|c bs|]; cbn [guard] in Hg.
+  intros s o s' HI Hg H. destruct o as [pkg n parent|c n q k|o np nn|c bs|]; cbn [guard] in Hg.
   - eapply step_add_module_inv; eauto.
   - eapply step_add_child_inv; eauto.
-  - destruct Hn.
+  - eapply step_reparent_inv; eauto.
   - eapply step_set_bases_inv; eauto.
   - eapply step_post_process_inv; eauto.
 Qed.
 
-Lemma history_inv_noreparent : forall s ops s', guarded_run s ops s' -> Forall no_reparent ops -> Inv s -> Inv s'.
+Lemma history_inv : forall s ops s', guarded_run s ops s' -> Inv s -> Inv s'.
 Proof.
-  intros s ops s' H. induction H as [s|s o s1 t s2 Hg Hs Hr IH]; intros Hf HI; [exact HI|].
-  inversion Hf; subst. apply IH; [assumption|]. eapply step_inv_noreparent; eauto.
+  intros s ops s' H. induction H as [s|s o s1 t s2 Hg Hs Hr IH]; intros HI; [exact HI|].
+  apply IH. eapply step_inv; eauto.
 Qed.
 
 (* ------------------------------------------------------------------ the executable guards imply the guards *)
@@ -102,8 +101,6 @@ Proof.
 Qed.
 
 (* ------------------------------------------------------------------ the executable form of the history theorem *)
-Definition is_reparent (o : op) : bool := match o with Reparent _ _ _ => true | _ => false end.
-
 Lemma run_ops_false : forall ops s k r, run_ops s ops k false = r -> snd r = false.
 Proof.
   induction ops as [|o t IH]; intros s k r H; cbn in H.
@@ -111,17 +108,13 @@ Proof.
   - destruct (step s o) as [s1|]; [eapply IH; exact H | subst r; reflexivity].
 Qed.
 
-Lemma run_ops_guarded_noreparent : forall ops s0 k s,
-    Inv s0 -> forallb (fun o => negb (is_reparent o)) ops = true ->
-    run_ops s0 ops k true = (s, None, true) -> Inv s.
+Lemma run_ops_guarded : forall ops s0 k s, Inv s0 -> run_ops s0 ops k true = (s, None, true) -> Inv s.
 Proof.
-  induction ops as [|o t IH]; intros s0 k s HI Hn H; cbn in H.
+  induction ops as [|o t IH]; intros s0 k s HI H; cbn in H.
   - inversion H; subst. exact HI.
-  - cbn in Hn. apply andb_true_iff in Hn. destruct Hn as [Hn1 Hn2].
-    destruct (step s0 o) as [s1|] eqn:Es; [|inversion H].
+  - destruct (step s0 o) as [s1|] eqn:Es; [|inversion H].
     destruct (guard_b s0 o) eqn:Eg.
-    + apply (IH s1 (N.succ k) s); [|exact Hn2|exact H].
-      apply (step_inv_noreparent s0 o s1 HI (guard_b_sound s0 o HI Eg)); [|exact Es].
-      destruct o; cbn in *; try exact I. discriminate.
+    + apply (IH s1 (N.succ k) s); [|exact H].
+      exact (step_inv s0 o s1 HI (guard_b_sound s0 o HI Eg) Es).
     + apply run_ops_false in H. cbn in H. discriminate.
 Qed.
